@@ -117,6 +117,18 @@ func (env *Env) footprintOfTargets(mods []Expr) (*footprint, error) {
 					continue
 				}
 			}
+			if id != nil && id.Name == "view" && len(x.Args) == 1 {
+				l, err := env.evalInt(x.Args[0])
+				if err != nil {
+					return nil, err
+				}
+				for _, gn := range e.DB.Layered {
+					if _, ok := e.DB.GhostVars[gn]; ok {
+						add("G|"+gn, l)
+					}
+				}
+				continue
+			}
 			if id != nil && id.Name == "contents" && len(x.Args) == 1 {
 				v, err := env.eval(x.Args[0])
 				if err != nil {
